@@ -67,7 +67,11 @@ impl TypeDependencyGraph {
         let mut visited = HashSet::new();
         let mut visiting = HashSet::new();
 
-        for type_name in types {
+        // Sorted: the result must not depend on the iteration order of the hash sets
+        let mut type_names: Vec<&String> = types.iter().collect();
+        type_names.sort();
+
+        for type_name in type_names {
             if !visited.contains(type_name) {
                 self.topological_visit(type_name, &mut sorted, &mut visited, &mut visiting);
             }
@@ -101,6 +105,8 @@ impl TypeDependencyGraph {
 
         // Visit dependencies first
         if let Some(deps) = self.dependencies.get(type_name) {
+            let mut deps: Vec<&String> = deps.iter().collect();
+            deps.sort();
             for dep in deps {
                 self.topological_visit(dep, sorted, visited, visiting);
             }
@@ -135,7 +141,9 @@ impl TypeDependencyGraph {
         }
 
         output.push_str("\n🏗️  Discovered Types:\n");
-        for (type_name, struct_info) in &self.resolved_types {
+        let mut resolved: Vec<(&String, &StructInfo)> = self.resolved_types.iter().collect();
+        resolved.sort_by(|a, b| a.0.cmp(b.0));
+        for (type_name, struct_info) in resolved {
             let type_kind = if struct_info.is_enum {
                 "enum"
             } else {
@@ -152,7 +160,8 @@ impl TypeDependencyGraph {
             // Show dependencies
             if let Some(deps) = self.dependencies.get(type_name) {
                 if !deps.is_empty() {
-                    let deps_list: Vec<String> = deps.iter().cloned().collect();
+                    let mut deps_list: Vec<String> = deps.iter().cloned().collect();
+                    deps_list.sort();
                     output.push_str(&format!("  └─ depends on: {}\n", deps_list.join(", ")));
                 }
             }
@@ -160,7 +169,9 @@ impl TypeDependencyGraph {
 
         // Show dependency chains
         output.push_str("\n🔗 Dependency Chains:\n");
-        for type_name in self.resolved_types.keys() {
+        let mut chain_roots: Vec<&String> = self.resolved_types.keys().collect();
+        chain_roots.sort();
+        for type_name in chain_roots {
             self.show_dependency_chain(type_name, &mut output, 0);
         }
 
@@ -180,6 +191,8 @@ impl TypeDependencyGraph {
         output.push_str(&format!("{}├─ {}\n", indent_str, type_name));
 
         if let Some(deps) = self.dependencies.get(type_name) {
+            let mut deps: Vec<&String> = deps.iter().collect();
+            deps.sort();
             for dep in deps {
                 if indent < 3 {
                     // Prevent too deep recursion in visualization
@@ -206,7 +219,9 @@ impl TypeDependencyGraph {
         }
 
         // Add type nodes
-        for type_name in self.resolved_types.keys() {
+        let mut type_nodes: Vec<&String> = self.resolved_types.keys().collect();
+        type_nodes.sort();
+        for type_name in type_nodes {
             output.push_str(&format!("  \"{}\" [color=green];\n", type_name));
         }
 
@@ -229,8 +244,14 @@ impl TypeDependencyGraph {
         }
 
         // Add type dependency edges
-        for (type_name, deps) in &self.dependencies {
-            for dep in deps {
+        let mut edges: Vec<(&String, &String)> = self
+            .dependencies
+            .iter()
+            .flat_map(|(type_name, deps)| deps.iter().map(move |dep| (type_name, dep)))
+            .collect();
+        edges.sort();
+        for (type_name, dep) in edges {
+            {
                 output.push_str(&format!("  \"{}\" -> \"{}\";\n", type_name, dep));
             }
         }
